@@ -394,6 +394,7 @@ def check(prop, tier):
         for c in under:
             if c in em.func_loc:
                 q, f, l = em.func_loc[c]
+                f = (f or '').replace(os.path.join(cwd, 'include_p0634'), os.path.join(REPO, 'include'))   # scratch copy of the typename pass
                 funcs.append({'function': q, 'lowered_as': c, 'source': '%s:%s' % (f, l), 'lowered_text_sha': em.src_hash[c]})
     tool_bad = [r for r in all_results if r['status'] in ('error', 'timeout', 'oom')]
     known = load_known()
